@@ -101,6 +101,8 @@ impl Cache for MemoryStore {
                     }
                 }
                 None => {
+                    #[cfg(memcrs_verif)]
+                    crate::verif::emit("store.set.absent_checked", record.header.cas, 0);
                     record.header.cas = record.header.cas.wrapping_add(1).max(1);
                     record.header.timestamp = self.timer.timestamp();
                     let cas = record.header.cas;
@@ -110,6 +112,8 @@ impl Cache for MemoryStore {
             }
         } else {
             let cas = self.get_cas_id();
+            #[cfg(memcrs_verif)]
+            crate::verif::emit("store.set.cas_issued", cas, 0);
             record.header.cas = cas;
             record.header.timestamp = self.timer.timestamp();
             self.memory.insert(key, record);
